@@ -585,6 +585,11 @@ class Shape:
         all_variable_symbols_dict = {str(el): el for el in all_variable_symbols}
         definition = sympy.parsing.sympy_parser.parse_expr(definition.replace("'", Config().differential_order_symbol), global_dict=Shape._sympy_globals, local_dict=all_variable_symbols_dict)  # minimal global_dict to make no assumptions (e.g. "beta" could otherwise be recognised as a function instead of as a parameter symbol)
         initial_values = {k: sympy.parsing.sympy_parser.parse_expr(v, global_dict=Shape._sympy_globals, local_dict=all_variable_symbols_dict) for k, v in initial_values.items()}
+        # parse the bounds like every other expression, i.e. with the minimal namespace (a parameter called e.g. "beta" or "gamma" is a symbol, not a SymPy function)
+        if type(lower_bound) is str:
+            lower_bound = sympy.parsing.sympy_parser.parse_expr(lower_bound, global_dict=Shape._sympy_globals, local_dict=all_variable_symbols_dict)
+        if type(upper_bound) is str:
+            upper_bound = sympy.parsing.sympy_parser.parse_expr(upper_bound, global_dict=Shape._sympy_globals, local_dict=all_variable_symbols_dict)
 
         local_symbols = [symbol + Config().differential_order_symbol * i for i in range(order)]
         local_symbols_sympy = [sympy.Symbol(sym_name) for sym_name in local_symbols]
